@@ -30,9 +30,15 @@ type targetRuntimeError struct {
 
 func (e targetRuntimeError) Error() string { return "runtime error: " + e.msg }
 
+// nonTermination: a recursion bound derived from the code was exceeded on a feasible path.
+type nonTermination struct {
+	fn    string
+	depth int
+}
+
 func isEngineSignal(r any) bool {
 	switch r.(type) {
-	case engineError, pathAbort:
+	case engineError, pathAbort, nonTermination:
 		return true
 	}
 	return false
@@ -119,6 +125,7 @@ type pathCtx struct {
 	cfg      *Config
 	inInit   int
 	secCache map[int64]value
+	active   map[string]int
 }
 
 func (p *pathCtx) outcomes() []int32 {
